@@ -1308,6 +1308,230 @@ func runE(rest string) string {
 	return out
 }
 
+// ---------------------------------------------------------------- Y: one ExportTo into targets mixing interface{} and typed fields
+
+type YMap map[string]*YNode
+type YNode struct { // untyped first: Any -> typed -> Any2
+	Any   interface{}
+	Next  *YNode
+	M     YMap
+	L     []*YNode
+	Any2  interface{}
+	Kids  []interface{}
+	Next2 *YNode
+	V     int
+}
+type ZMap map[string]*ZNode
+type ZNode struct { // typed first: Next -> Any -> typed again
+	Next  *ZNode
+	Any   interface{}
+	L     []*ZNode
+	M     ZMap
+	Any2  interface{}
+	Next2 *ZNode
+	Kids  []interface{}
+	V     int
+}
+
+type ynode struct {
+	kind   byte              // 'n' struct-like object, 'm' map-like object, 'l' array
+	fields map[string]string // key -> "r<id>" or integer text
+	keys   []string
+	elems  []string
+}
+
+type ywalk struct {
+	nodes []ynode
+	ident map[string]string // "<jsId> <Go type>" -> identity
+	seen  map[string]bool
+	err   string
+}
+
+func identOf(v reflect.Value) string {
+	switch v.Kind() {
+	case reflect.Map, reflect.Ptr:
+		return fmt.Sprintf("%x", v.Pointer())
+	case reflect.Slice:
+		if v.Len() == 0 {
+			return ""
+		}
+		return fmt.Sprintf("%x/%d", v.Pointer(), v.Len())
+	}
+	return ""
+}
+
+func refID(s string) (int, bool) {
+	if strings.HasPrefix(s, "r") {
+		return atoi(s[1:]), true
+	}
+	return 0, false
+}
+
+// visit records the identity of the Go value that stands for script object js at a destination of v's type;
+// returns false if the pair was already walked.
+func (w *ywalk) visit(js int, v reflect.Value) bool {
+	id := identOf(v)
+	if id == "" {
+		return true
+	}
+	key := fmt.Sprintf("%d %s", js, v.Type())
+	if old, ok := w.ident[key]; ok && old != id && w.err == "" {
+		w.err = fmt.Sprintf("SPLIT js=%d class=%s", js, strings.ReplaceAll(v.Type().String(), " ", ""))
+	}
+	if _, ok := w.ident[key]; !ok {
+		w.ident[key] = id
+	}
+	sk := key + " " + id
+	if w.seen[sk] {
+		return false
+	}
+	w.seen[sk] = true
+	return true
+}
+
+func (w *ywalk) walk(js int, v reflect.Value) {
+	if w.err != "" || js >= len(w.nodes) {
+		return
+	}
+	for v.Kind() == reflect.Interface {
+		if v.IsNil() {
+			w.err = fmt.Sprintf("NILVALUE js=%d", js)
+			return
+		}
+		v = v.Elem()
+	}
+	n := w.nodes[js]
+	switch v.Kind() {
+	case reflect.Ptr:
+		if v.IsNil() {
+			w.err = fmt.Sprintf("NILPTR js=%d", js)
+			return
+		}
+		if !w.visit(js, v) {
+			return
+		}
+		s := v.Elem()
+		for _, k := range n.keys {
+			f := s.FieldByName(k)
+			if !f.IsValid() {
+				continue
+			}
+			if c, ok := refID(n.fields[k]); ok {
+				w.walk(c, f)
+			} else if f.Kind() == reflect.Int && f.Int() != int64(atoi(n.fields[k])) {
+				w.err = fmt.Sprintf("VALUE js=%d field=%s", js, k)
+			}
+		}
+	case reflect.Map:
+		if !w.visit(js, v) {
+			return
+		}
+		for _, k := range n.keys {
+			e := v.MapIndex(reflect.ValueOf(k))
+			if !e.IsValid() {
+				w.err = fmt.Sprintf("MISSINGKEY js=%d key=%s", js, k)
+				return
+			}
+			if c, ok := refID(n.fields[k]); ok {
+				w.walk(c, e)
+			}
+		}
+	case reflect.Slice:
+		if !w.visit(js, v) {
+			return
+		}
+		if v.Len() != len(n.elems) {
+			w.err = fmt.Sprintf("LEN js=%d", js)
+			return
+		}
+		for i, e := range n.elems {
+			if c, ok := refID(e); ok {
+				w.walk(c, v.Index(i))
+			}
+		}
+	}
+}
+
+func runY(f []string) string {
+	if len(f) < 2 {
+		return "BADLINE"
+	}
+	w := &ywalk{ident: map[string]string{}, seen: map[string]bool{}}
+	var b strings.Builder
+	b.WriteString("var n = [];\n")
+	for i, tok := range f[1:] {
+		p := strings.SplitN(tok, ":", 2)
+		nd := ynode{kind: p[0][0], fields: map[string]string{}}
+		if nd.kind == 'l' {
+			fmt.Fprintf(&b, "n[%d] = [];\n", i)
+			if len(p) == 2 && p[1] != "" {
+				nd.elems = strings.Split(p[1], ",")
+			}
+		} else {
+			fmt.Fprintf(&b, "n[%d] = {};\n", i)
+			if len(p) == 2 && p[1] != "" {
+				for _, kv := range strings.Split(p[1], ",") {
+					q := strings.SplitN(kv, "=", 2)
+					nd.fields[q[0]] = q[1]
+					nd.keys = append(nd.keys, q[0])
+				}
+			}
+		}
+		w.nodes = append(w.nodes, nd)
+	}
+	val := func(s string) string {
+		if c, ok := refID(s); ok {
+			return fmt.Sprintf("n[%d]", c)
+		}
+		return s
+	}
+	for i, nd := range w.nodes {
+		for _, k := range nd.keys {
+			fmt.Fprintf(&b, "n[%d].%s = %s;\n", i, k, val(nd.fields[k]))
+		}
+		for j, e := range nd.elems {
+			fmt.Fprintf(&b, "n[%d][%d] = %s;\n", i, j, val(e))
+		}
+	}
+	b.WriteString("n[0]")
+	vm := goja.New()
+	v, err := vm.RunString(b.String())
+	if err != nil {
+		return "JSERR " + common.OneLine(err.Error())
+	}
+	var root reflect.Value
+	if f[0] == "Z" {
+		root = reflect.ValueOf(new(*ZNode))
+	} else {
+		root = reflect.ValueOf(new(*YNode))
+	}
+	var eerr error
+	if m := recoverStr(func() { eerr = vm.ExportTo(v, root.Interface()) }); m != "" {
+		return m
+	}
+	if eerr != nil {
+		return "EXPORTERR " + common.OneLine(eerr.Error())
+	}
+	w.walk(0, root.Elem())
+	if w.err != "" {
+		return w.err
+	}
+	classes := map[string]bool{}
+	multi := 0
+	perJs := map[string]int{}
+	for k := range w.ident {
+		q := strings.SplitN(k, " ", 2)
+		classes[q[1]] = true
+		perJs[q[0]]++
+	}
+	for _, c := range perJs {
+		if c > 1 {
+			multi++
+		}
+	}
+	return fmt.Sprintf("ok pairs=%d classes=%d multiclass=%d", len(w.ident), len(classes), multi)
+}
+
 var errType = reflect.TypeOf((*error)(nil)).Elem()
 
 func intsOf(vs []reflect.Value) []string {
@@ -1640,6 +1864,8 @@ func main() {
 			return runX(f[1:])
 		case "M":
 			return runM(f[1:])
+		case "Y":
+			return runY(f[1:])
 		case "C":
 			return runC(f[1:])
 		case "J":
